@@ -1,13 +1,37 @@
 package sys
 
 import (
+	"strings"
 	"time"
 
 	"verif/mc/explore"
 )
 
 func exploreBFS(ops []int, depth int, dedup bool, deadline time.Time, exec explore.Exec) explore.Stats {
-	return explore.BFS(func(int) []int { return ops }, depth, dedup, deadline, exec)
+	return explore.BFS(func([]int) []int { return ops }, depth, dedup, deadline, exec)
+}
+
+// exploreCombos enumerates subsets (as ascending index lists) of 0..n-1 up to size depth.
+func exploreCombos(n, depth int, deadline time.Time, exec explore.Exec) explore.Stats {
+	return explore.BFS(func(h []int) []int {
+		start := 0
+		if len(h) > 0 {
+			start = h[len(h)-1] + 1
+		}
+		var ops []int
+		for i := start; i < n; i++ {
+			ops = append(ops, i)
+		}
+		return ops
+	}, depth, false, deadline, exec)
+}
+
+func firstLines(s string, n int) string {
+	ls := strings.Split(s, "\n")
+	if len(ls) > n {
+		ls = ls[:n]
+	}
+	return strings.Join(ls, " | ")
 }
 
 // Runners maps property id -> runner(tier) exit code.
@@ -15,4 +39,7 @@ var Runners = map[string]func(tier string) int{
 	"C01": func(t string) int { return RunUnpackSafety("C01", t) },
 	"C04": func(t string) int { return RunUnpackSafety("C04", t) },
 	"C15": RunC15,
+	"C02": func(t string) int { return RunPackTrees("C02", t) },
+	"C20": func(t string) int { return RunPackTrees("C20", t) },
+	"C05": func(t string) int { return RunPackTrees("C05", t) },
 }
